@@ -29,6 +29,10 @@ class Fault(OSError):
     pass
 
 
+class OtherFault(Exception):
+    """stands for botocore.exceptions.ClientError and friends: an error from the store that does not derive from OSError"""
+
+
 class Plan:
     """fail the k-th gated call: kind 'exc' (before effect), 'exc-after' (effect, then raise), 'kbd' / 'exit' (BaseException before)"""
 
@@ -44,6 +48,11 @@ class Plan:
             self.fired = (name, arg)
             if self.kind == "exc":
                 raise Fault(f"injected before {name}({arg})")
+            if self.kind == "exc-other":        # a storage error that is NOT an OSError (what botocore raises)
+                raise OtherFault(f"injected before {name}({arg})")
+            if self.kind == "exc-other-after":
+                fn()
+                raise OtherFault(f"injected after {name}({arg})")
             if self.kind == "kbd":
                 raise KeyboardInterrupt()
             if self.kind == "exit":
@@ -192,12 +201,12 @@ def _sweep(ctx, rep, backend, op, style, base, model_ok, model_rows):
             assert out == "ok", (backend, op, style, out)
             post_sig = _sig(reader.view(env.store()), pre_ids)
             n = probe.n
-            kinds = ["exc", "kbd"] + (["exc-after"] if backend != "local" else []) + (["exit"] if ctx.thorough else [])
+            kinds = ["exc", "kbd", "exc-other"] + (["exc-after", "exc-other-after"] if backend != "local" else []) + (["exit"] if ctx.thorough else [])
             flip_idx = next((i for i, (m, a) in enumerate(probe.log) if m in ("write_file", "write_file_cas") and a == "metadata.version-hint.text"), None)
             for k in range(n):
                 for kind in kinds:
                     name, arg = probe.log[k]
-                    if kind == "exc-after" and name not in ("write_file", "write_file_cas", "delete_file"):
+                    if kind in ("exc-after", "exc-other-after") and name not in ("write_file", "write_file_cas", "delete_file"):
                         continue
                     env.restore(snap)
                     plan = Plan(at=k, kind=kind)
@@ -227,7 +236,7 @@ def _sweep(ctx, rep, backend, op, style, base, model_ok, model_rows):
                     if flipped is not None:
                         if outcome == "ok" and not flipped:
                             problems.append("reported success but the table is in the pre-state")
-                        if outcome == "raise:storage" and flipped and not (backend != "local" and kind == "exc-after"):
+                        if outcome == "raise:storage" and flipped and not (backend != "local" and kind in ("exc-after", "exc-other-after")):
                             # a storage error after the commit point may only come from post-commit cleanup, which must not raise
                             problems.append("a storage error was raised although the commit took effect")
                         if outcome == "raise:AmbiguousCommitError" and written and not kept:
@@ -269,7 +278,8 @@ def _sweep(ctx, rep, backend, op, style, base, model_ok, model_rows):
                         else:
                             first_cleanup = next((i for i, (m, a) in enumerate(probe.log) if i > flip_idx and m == "delete_file"), n)
                             point = "release" if k < first_cleanup else "finish"
-                        model_rows.append((f"cf.outcome {backend} {style} {CATCH_BASE} {point} {kind} {1 if written else 0}",
+                        mkind = {"exc-other": "exc", "exc-other-after": "exc-after"}.get(kind, kind)     # same expected outcome as an OSError
+                        model_rows.append((f"cf.outcome {backend} {style} {CATCH_BASE} {point} {mkind} {1 if written else 0}",
                                            f"{outcome.split(':')[0]}{':' + outcome.split(':')[1] if outcome.startswith('raise') else ''} "
                                            f"flipped={1 if flipped else 0} deleted={1 if own_deleted else 0}", case))
     finally:
@@ -297,7 +307,7 @@ def run(ctx, model_ok):
     import concurrent.futures as cf
     rep = Report()
     rep.rule = ("exhaustive single faults: every gated storage / lock call of {append, delete files, expire (ctx + explicit), delete_snapshot} "
-                "× {exception before effect, KeyboardInterrupt (thorough: + SystemExit), exception after effect on S3 writes/deletes} × "
+                "× {OSError before effect, non-OSError store error before effect, KeyboardInterrupt (thorough: + SystemExit), exception after effect on S3 writes/deletes} × "
                 "{local, CAS-S3, non-CAS S3}; after each: independent re-read of every retained snapshot, pre/post classification, fate of the "
                 "transaction's files, follow-up append. quick: all of local + append(ctx) on both S3 flavours; thorough: everything. "
                 "distinct = (backend, op, style, kind, call index).")
